@@ -505,6 +505,23 @@ def g_segments3d(ctx, rng, i):
         sc = _try(g.SegmentCollection, np.stack([A, B], axis=-2))
         if sc is not None:
             _try(sc.intersect, g.Plane(h))
+    if kind == 1:
+        # segment collections with two collection axes, every segment crossing the plane / the line (and one variant with a miss)
+        nrm = gen.nonzero_vec(rng, 3, 2)
+        base_pts = [gen.coords(rng, (3,), 3, "int") for _ in range(6)]
+        for miss in (False, True):
+            A2, B2 = [], []
+            for j, bp in enumerate(base_pts):
+                s_ = int(nrm @ bp)
+                lo, hi = bp - (abs(s_) + 1 + j) * nrm, bp + (abs(s_) + 2) * nrm  # end points on both sides of the plane n.x = 0
+                if miss and j == 4:
+                    hi = lo - nrm
+                A2.append(np.append(lo, 1))
+                B2.append(np.append(hi, 1))
+            sc2 = _try(g.SegmentCollection, np.stack([np.array(A2), np.array(B2)], axis=-2).reshape(2, 3, 2, 4))
+            if sc2 is not None:
+                _try(sc2.intersect, g.Plane(np.append(nrm, 0)))
+                _try(sc2.intersect, g.PlaneCollection(np.tile(np.append(nrm, 0), (2, 3, 1))))
     if kind in (3, 4):
         # collections of pairs in which skew pairs and meeting pairs are mixed; the supporting lines of a meeting pair cross inside /
         # at the end of / beyond the end of either segment
